@@ -498,7 +498,8 @@ class ITerm2Image(GraphicsImage, metaclass=ITerm2ImageMeta):
                     ):
                         cls._supported = True
                         cls._TERM, cls._TERM_VERSION = name, version
-                except ValueError:  # version string not "understood"
+                # version string not "understood" or not available
+                except (ValueError, AttributeError):
                     pass
 
         return cls._supported
